@@ -23,7 +23,11 @@ Inductive op :=
 | QueryG (T : cls)                           (* sweep; list(SymbolGraph().get_instances_of_type(T)) *)
 | QueryE (T : cls)                           (* q = an(entity(let(T, None))); list(q.evaluate())   -- declared and evaluated at once *)
 | DeclV (T : cls)                            (* q = an(entity(let(T, None)))       -- declared only; becomes query object k *)
-| EvalV (k : nat)                            (* list(q_k.evaluate()) for the k-th query object made by QueryE / DeclV *)
+| EvalV (k : nat)                            (* list(q_k.evaluate()): a complete evaluation of the k-th query object *)
+| StartV (k : nat)                           (* it = q_k.evaluate(): a live evaluation (nothing runs yet); becomes evaluation e *)
+| NextV (e : nat) (y : option (option obj))  (* next(it_e); y = what the runtime produced (which row, or None = StopIteration):
+                                                the order of rows is the runtime's choice, like addresses and node indices *)
+| CloseV (e : nat)                           (* it_e.close() / del it_e *)
 | Relate (a : obj) (f : fld) (b : obj) (ia ib : idx)
                                              (* PredicateClassRelation(a, b, f).add_to_graph(); ia/ib: node index
                                                 observed if a / b had to be wrapped anew *)
@@ -59,15 +63,39 @@ Definition rel := (obj * fld * obj)%type.
 Definition rel_eqb (x y : rel) : bool :=
   let '(a, f, b) := x in let '(a', f', b') := y in (a =? a') && (f =? f') && (b =? b').
 
+(* a live evaluation as the program sees it: the type, whether it has begun (first next), the rows it produced, and the
+   instances that existed when it began *)
+Record aev := AE { ae_T : cls; ae_started : bool; ae_yielded : list obj; ae_stable : list obj }.
+
 Record ast := AS {
-  a_live : list orec;          (* instances that exist = instances the program still references *)
+  a_live : list orec;          (* instances that exist *)
+  a_user : list obj;           (* instances the program still references directly *)
   a_rels : list rel;           (* recorded relations between existing instances *)
   a_vars : list cls;           (* types of the query objects created so far *)
+  a_evals : list (option aev); (* evaluations begun with StartV; None once finished or closed *)
   a_next : nat }.
 
-Definition a_init : ast := AS [] [] [] 0.
+Definition a_init : ast := AS [] [] [] [] [] 0.
 
 Definition mem_obj (o : obj) (L : list orec) : bool := existsb (fun x => o_id x =? o) L.
+Definition mem_nat (o : nat) (l : list nat) : bool := existsb (Nat.eqb o) l.
+
+Fixpoint set_nth {A} (k : nat) (x : A) (l : list A) : list A :=
+  match l, k with
+  | [], _ => []
+  | _ :: t, 0 => x :: t
+  | a :: t, S k' => a :: set_nth k' x t
+  end.
+
+(* the program still holds the iterator of a live evaluation, and with it the rows that iterator produced *)
+Definition a_pinned (es : list (option aev)) (o : obj) : bool :=
+  existsb (fun e => match e with Some e => mem_nat o (ae_yielded e) | None => false end) es.
+
+(* C20: whatever neither the program nor a live iterator references is reclaimed, with everything recorded about it *)
+Definition a_release (live : list orec) (user : list obj) (es : list (option aev)) : list orec :=
+  filter (fun x => mem_nat (o_id x) user || a_pinned es (o_id x)) live.
+Definition rels_of (live : list orec) (rels : list rel) : list rel :=
+  filter (fun r => let '(s, _, t) := r in mem_obj s live && mem_obj t live) rels.
 
 Section SpecStep.
   Variable children : cls -> list cls.
@@ -79,29 +107,75 @@ Section SpecStep.
 
   Definition spec_step (a : ast) (o : op) : ast * out :=
     match o with
-    | New c p _ => (AS (a_live a ++ [O (a_next a) c p]) (a_rels a) (a_vars a) (S (a_next a)), ONone)
+    | New c p _ =>
+        (AS (a_live a ++ [O (a_next a) c p]) (a_user a ++ [a_next a]) (a_rels a) (a_vars a) (a_evals a) (S (a_next a)), ONone)
     | Drop x =>
-        (* C20: dropping the last reference reclaims the instance and everything recorded about it *)
-        (AS (filter (fun r => negb (o_id r =? x)) (a_live a))
+        (* C20: dropping the last reference reclaims the instance and everything recorded about it; a row of a live
+           iterator is still referenced by that iterator *)
+        let u := filter (fun y => negb (y =? x)) (a_user a) in
+        if a_pinned (a_evals a) x then (AS (a_live a) u (a_rels a) (a_vars a) (a_evals a) (a_next a), ONone)
+        else
+        (AS (filter (fun r => negb (o_id r =? x)) (a_live a)) u
             (filter (fun r => let '(s, _, t) := r in negb (s =? x) && negb (t =? x)) (a_rels a))
-            (a_vars a) (a_next a), ONone)
+            (a_vars a) (a_evals a) (a_next a), ONone)
     | Sweep => (a, ONone)
     | QueryG T => (a, OInst (map Some (spec_query (a_live a) T)))
-    | QueryE T => (AS (a_live a) (a_rels a) (a_vars a ++ [T]) (a_next a), OInst (map Some (spec_query (a_live a) T)))
-    | DeclV T => (AS (a_live a) (a_rels a) (a_vars a ++ [T]) (a_next a), ONone)    (* a declared variable holds nothing *)
+    | QueryE T =>
+        (AS (a_live a) (a_user a) (a_rels a) (a_vars a ++ [T]) (a_evals a) (a_next a), OInst (map Some (spec_query (a_live a) T)))
+    | DeclV T => (AS (a_live a) (a_user a) (a_rels a) (a_vars a ++ [T]) (a_evals a) (a_next a), ONone)
     | EvalV k =>
-        (* the range is decided when the query is evaluated, every time *)
+        (* the range is decided when the query is evaluated, every time; afterwards the query holds nothing *)
         match nth_error (a_vars a) k with
         | Some T => (a, OInst (map Some (spec_query (a_live a) T)))
+        | None => (a, OErr)
+        end
+    | StartV k =>
+        match nth_error (a_vars a) k with
+        | Some T => (AS (a_live a) (a_user a) (a_rels a) (a_vars a) (a_evals a ++ [Some (AE T false [] [])]) (a_next a), ONone)
+        | None => (a, OErr)
+        end
+    | NextV e y =>
+        match nth_error (a_evals a) e with
+        | Some (Some ev) =>
+            (* the evaluation begins with its first row request *)
+            let ev := if ae_started ev then ev else AE (ae_T ev) true [] (spec_query (a_live a) (ae_T ev)) in
+            match y with
+            | Some (Some o) =>
+                (* a row: an existing instance of the type that this evaluation has not produced before *)
+                if mem_obj o (a_live a) && existsb (Nat.eqb o) (spec_query (a_live a) (ae_T ev)) && negb (mem_nat o (ae_yielded ev))
+                then (AS (a_live a) (a_user a) (a_rels a) (a_vars a)
+                         (set_nth e (Some (AE (ae_T ev) true (ae_yielded ev ++ [o]) (ae_stable ev))) (a_evals a)) (a_next a),
+                      OInst [Some o])
+                else (AS (a_live a) (a_user a) (a_rels a) (a_vars a) (set_nth e (Some ev) (a_evals a)) (a_next a), OErr)
+            | Some None =>
+                (* a dead reference is never a row *)
+                (AS (a_live a) (a_user a) (a_rels a) (a_vars a) (set_nth e (Some ev) (a_evals a)) (a_next a), OErr)
+            | None =>
+                (* the end: every instance that existed from the beginning until now has been produced *)
+                let es := set_nth e None (a_evals a) in
+                let l := a_release (a_live a) (a_user a) es in
+                (AS l (a_user a) (rels_of l (a_rels a)) (a_vars a) es (a_next a),
+                 if forallb (fun o => negb (mem_obj o (a_live a)) || mem_nat o (ae_yielded ev)) (ae_stable ev)
+                 then OInst [] else OErr)
+            end
+        | Some None => (a, match y with None => OInst [] | _ => OErr end)   (* a finished or closed iterator just stops again *)
+        | None => (a, OErr)
+        end
+    | CloseV e =>
+        match nth_error (a_evals a) e with
+        | Some _ =>
+            let es := set_nth e None (a_evals a) in
+            let l := a_release (a_live a) (a_user a) es in
+            (AS l (a_user a) (rels_of l (a_rels a)) (a_vars a) es (a_next a), ONone)
         | None => (a, OErr)
         end
     | Relate x f y _ _ =>
         if mem_obj x (a_live a) && mem_obj y (a_live a) then
           (* C14: new iff not among the recorded relations of existing instances *)
           if existsb (rel_eqb (x, f, y)) (a_rels a) then (a, OBool false)
-          else (AS (a_live a) (a_rels a ++ [(x, f, y)]) (a_vars a) (a_next a), OBool true)
+          else (AS (a_live a) (a_user a) (a_rels a ++ [(x, f, y)]) (a_vars a) (a_evals a) (a_next a), OBool true)
         else (a, OErr)
-    | Clear => (AS (a_live a) [] (a_vars a) (a_next a), ONone)     (* instances stay; recorded relations are reset *)
+    | Clear => (AS (a_live a) (a_user a) [] (a_vars a) (a_evals a) (a_next a), ONone)   (* instances stay; recorded relations are reset *)
     end.
 
   Fixpoint spec_run (a : ast) (h : list op) : ast * list out :=
